@@ -644,6 +644,10 @@ func (c *Client) Start() (addr net.Addr, err error) {
 	}
 	if c.config.GRPCBrokerMultiplex {
 		env = append(env, fmt.Sprintf("%s=true", envMultiplexGRPC))
+	} else {
+		// Do not let a value inherited from the host's own environment (the
+		// host may itself be a plugin) request multiplexing on our behalf.
+		env = append(env, fmt.Sprintf("%s=", envMultiplexGRPC))
 	}
 
 	cmd := c.config.Cmd
@@ -690,6 +694,10 @@ func (c *Client) Start() (addr net.Addr, err error) {
 			MinVersion:   tls.VersionTLS12,
 			ServerName:   "localhost",
 		}
+	} else {
+		// Do not let a certificate inherited from the host's own environment
+		// make the plugin negotiate mTLS that this client did not ask for.
+		cmd.Env = append(cmd.Env, "PLUGIN_CLIENT_CERT=")
 	}
 
 	if c.config.UnixSocketConfig != nil {
